@@ -229,10 +229,11 @@ def run_vh(vh, mode_args, timeout):
     frm = 0
     out_path = mode_args["out"]
     parts = []
-    for attempt in range(50):
+    for attempt in range(2000):
         part = "%s.part%d" % (out_path, attempt)
         cmd = [vh, "mmanager", "replay", "-repo", vlib.REPO, "-scripts", mode_args["scripts"], "-out", part,
-               "-from", str(frm), "-step-ms", str(mode_args["step_ms"]), "-hang-ms", str(mode_args["hang_ms"])]
+               "-from", str(frm), "-step-ms", str(mode_args["step_ms"]), "-hang-ms", str(mode_args["hang_ms"]),
+               "-budget", "3" if attempt == 0 else "0"]
         rc, out = vlib.run(cmd, timeout=timeout)
         parts.append(part)
         last = [ln for ln in out.splitlines() if ln.startswith("{")]
@@ -555,7 +556,7 @@ def run(pid, tier, seed, replay_path):
         reported = {}
         for sid in sorted(suspects, key=lambda s: (len(by_script[s]), s)):
             props = suspects[sid]
-            if all(reported.get(p, 0) >= 3 for p in props):
+            if all(reported.get(p, 0) >= 2 for p in props):
                 continue
             steps = script_of(by_script[sid], sid)
             given = by_script[sid]
